@@ -49,7 +49,7 @@ OptionCandidates(cfg, n, w, target) ==
       valKeys == IF hasEq THEN {k \in keys : k # <<DASH>> /\ IsPfx(k, partial)} ELSE {}
       valsOf(k) ==
         LET o  == OptOfKey(cfg, n, k)
-            sv == Suggested(cfg, o)
+            sv == Suggested(cfg, o) \o Opt(cfg, o).suggfn   \* static suggestions, then the dynamic function's results
             full(e) == <<DASH, DASH>> \o k \o <<EQ>> \o e
             keep == SelectSeq(sv, LAMBDA e : IsPfx(w, full(e)))
         IN [j \in 1..Len(keep) |-> IF target = "bash" THEN keep[j] ELSE full(keep[j])]
